@@ -823,7 +823,12 @@ class Gen:
         x = self.pick_or_new(lambda i: self.dtype(i).kind in "fc", dtype=self.rand_dtype("fc"))
         if self.dtype(x).kind not in "fc":
             raise Reject("kind")
-        return self.add(self.rng.choice(["zeros_like", "ones_like"]), [x])
+        params: dict[str, Any] = {}
+        if self.rng.random() < 0.4:
+            # dtype override (zeros_like(a, dtype=d)): the result's dtype is not the operand's
+            params["dtype"] = self.rng.choice(["float32", "float64", "int32", "int64",
+                                               "complex128"])
+        return self.add(self.rng.choice(["zeros_like", "ones_like"]), [x], params)
 
     def f_loopy(self) -> int:
         if self.no_loopy:
